@@ -11,6 +11,9 @@ CONSTANTS
   DoEmit = TRUE
   Bug = "none"
   Hist = 0
+  DsHist = 0
+  DsOps = {}
+  NMon = 0
   Shape = "any"
 INVARIANT TypeOK
 INVARIANT InComp
